@@ -5,6 +5,7 @@ No oracle lives here: results are *represented* (int, list of bit indices,
 float -> rational), never computed or compared.
 """
 import warnings
+from fractions import Fraction
 
 from . import proj
 
@@ -26,13 +27,23 @@ def nested_of_graph(g):
     return mk(g["seed"]), order
 
 
-def build(dendropy, g, ns, taxa):
-    """real Tree for a graph form; returns (tree, {model node id: Node})"""
+BIG_BASE = float(2 ** 32)      # "large lengths, small differences": every edge is hi * BIG_BASE + quarter units
+
+
+def build(dendropy, g, ns, taxa, sexp=0, big=False):
+    """real Tree for a graph form; returns (tree, {model node id: Node}).
+    sexp: every length is multiplied by 2**sexp (exact in floating point);
+    big:  every present non-seed length q/4 becomes BIG_BASE + q/4 (exact: 2**32 + quarters needs 36 bits)"""
     nested, order = nested_of_graph(g)
     made = []
+    unit = 2.0 ** sexp
 
-    def bn(nd):
+    def bn(nd, is_seed=False):
         lab, tx, ln, kids = nd
+        if ln is not None:
+            ln = ln * unit
+            if big and not is_seed:
+                ln = BIG_BASE + ln
         node = dendropy.Node(edge_length=ln)
         made.append(node)
         if tx is not None:
@@ -40,7 +51,7 @@ def build(dendropy, g, ns, taxa):
         for k in kids:
             node.add_child(bn(k))
         return node
-    seed = bn(nested)
+    seed = bn(nested, True)
     tree = dendropy.Tree(seed_node=seed, taxon_namespace=ns)
     r = g["rooted"]
     tree.is_rooted = None if r < 0 else bool(r)
@@ -71,9 +82,38 @@ def graph_of_nested(nested, rooted):
 
 
 # ------------------------------------------------------------------ projections
-def graph(tree):
-    g = proj.tree_graph(tree, labels=False)
+def graph(tree, sexp=0):
+    """raw-pointer projection; lengths in units of 2**sexp / 4 (the scale is divided out exactly, a length
+    that is not a whole number of units is logged as -2 and rejected by the judge)"""
+    g = proj.tree_graph(tree, labels=False, scale=Fraction(LSCALE) / (Fraction(2) ** sexp))
     del g["lab"]            # node labels play no role in C04 (keeps the events small)
+    return g
+
+
+def graph_big(tree):
+    """projection for large lengths: length = hi * BIG_BASE + len / 4 with 0 <= len / 4 < BIG_BASE / 2**12
+    (a purely syntactic split of the float; anything else is logged as -2)"""
+    ids = {}
+    g = proj.tree_graph(tree, labels=False, scale=0, node_ids=ids)      # lengths filled in below
+    del g["lab"]
+    order = ids["__order__"]
+    g["len"], g["hi"] = [], []
+    for nd in order:
+        e = getattr(nd, "_edge", None)
+        v = getattr(e, "length", None) if e is not None else None
+        if v is None:
+            g["len"].append(-1)
+            g["hi"].append(0)
+            continue
+        try:
+            f = Fraction(v)
+            hi = int(f // Fraction(BIG_BASE))
+            lo = (f - hi * Fraction(BIG_BASE)) * LSCALE
+            ok = f >= 0 and lo.denominator == 1 and lo < 2 ** 20 and hi < 2 ** 10
+        except Exception:
+            ok = False
+        g["len"].append(int(lo) if ok else -2)
+        g["hi"].append(hi if ok else 0)
     return g
 
 
@@ -96,8 +136,31 @@ def _rat(v):
     return [int(r[0]), int(r[1]), 1 if r[2] else 0]
 
 
-def represent(kind, v):
-    """(n, sp) for a returned value"""
+def represent_big(kind, v):
+    """weighted value over large lengths: <<num, den, exact, hi, negative>> with v = hi * BIG_BASE + (+-)num/den,
+    hi the nearest multiple (syntactic split of the float); for the Euclidean distance the square of v is
+    represented when v is small (hi = 0)"""
+    if not isinstance(v, (int, float)) or isinstance(v, bool) or v != v or abs(v) > 2.0 ** 45:
+        return [0, 0, 0, 0, 0]
+    f = Fraction(v)
+    hi = int(round(f / Fraction(BIG_BASE)))
+    rest = f - hi * Fraction(BIG_BASE)
+    if kind == "euc":
+        if hi != 0:
+            return [0, 0, 0, hi, 0]
+        r = _rat(v * v)
+        return r + [0, 0]
+    r = _rat(float(abs(rest)))
+    if Fraction(float(abs(rest))) != abs(rest):
+        r = [0, 0, 0]
+    return r + [hi, 1 if rest < 0 else 0]
+
+
+def represent(kind, v, unit=1.0):
+    """(n, sp) for a returned value; unit: the power of two all lengths of the case were multiplied by
+    (divided out exactly before the float is represented as a rational)"""
+    if unit != 1.0 and kind in ("wrf", "euc") and isinstance(v, (int, float)) and not isinstance(v, bool):
+        v = v / unit
     if kind == "rf":
         return ([v] if isinstance(v, int) and not isinstance(v, bool) and abs(v) < 2 ** 30 else [-999]), []
     if kind == "fpn":
@@ -154,7 +217,7 @@ KIND_APIS = {"rf": ["symmetric_difference", "unweighted_robinson_foulds_distance
              "euc": ["euclidean_distance", "Tree.euclidean_distance"]}
 
 
-def call(table, api, a, b, ord_, flag=None, pr=0, with_flag=False):
+def call(table, api, a, b, ord_, flag=None, pr=0, with_flag=False, sexp=0, big=False):
     """one logged call; the outcome (value or exception type) is recorded, never interpreted"""
     kind, fn = table[api]
     # small events: "sp" only for the kind that returns bipartitions, "pr" only in triples, "flag" only in histories
@@ -172,7 +235,11 @@ def call(table, api, a, b, ord_, flag=None, pr=0, with_flag=False):
         except Exception as ex:          # logged as the outcome and judged by TLC
             rec["raised"] = type(ex).__name__
             return rec
-    n, sp = represent(kind, v)
+    if big:
+        rec["n"] = represent_big(kind, v)
+        rec["z"] = bool(isinstance(v, (int, float)) and v == 0)
+        return rec
+    n, sp = represent(kind, v, 2.0 ** sexp)
     rec["n"] = n
     if kind == "missing":
         rec["sp"] = sp
